@@ -6,6 +6,8 @@ From CG Require Import Model.Metrics Model.Slice Model.Loop Model.Recur Model.Ca
 From CG Require Import Model.Small.
 From CG Require Import Model.LoopMem.
 
+From CG Require Import Model.LoopMet Model.MetricsSrc.
+
 
 (* calgebra/interval.py: Interval.finite_start *)
 Definition g_finite_start (self : ivl) : Z :=
@@ -1577,3 +1579,264 @@ Definition g_mt_remove_many_series {ST : Type} (remove_series : ST -> ivl -> ST 
     (fun '(results, self_state) =>
       (self_state, results))
     (results, self_state) intervals.
+
+(* calgebra/metrics.py: _total_duration *)
+Definition g_total_duration {TL : Type} (tl_flatten : TL -> TL) (tl_slice : TL -> Z -> Z -> list ivl) (tl : TL) (win_start : Z) (win_end : Z) : Z :=
+  let total := 0 in
+  iter_for
+    (fun total ivl_ =>
+      if ((is_none (st ivl_)) || (is_none (en ivl_))) then
+        (SCont total)
+      else
+        let clipped_start := (Z.max (ozd (st ivl_)) win_start) in
+        let clipped_end := (Z.min (ozd (en ivl_)) win_end) in
+        if (clipped_start <? clipped_end) then
+          let total := (total + (clipped_end - clipped_start)) in
+          (SCont total)
+        else
+          (SCont total))
+    (fun total =>
+      total)
+    total (tl_slice (tl_flatten tl) win_start win_end).
+
+(* calgebra/metrics.py: _extremum_duration *)
+Definition g_extremum_duration {TL : Type} (tl_slice : TL -> Z -> Z -> list ivl) (tl : TL) (win_start : Z) (win_end : Z) (find_max : bool) : option ivl :=
+  let extremum := None in
+  let extremum_len := None in
+  iter_for
+    (fun '(extremum, extremum_len) ivl_ =>
+      if ((is_none (st ivl_)) || (is_none (en ivl_))) then
+        (SCont (extremum, extremum_len))
+      else
+        let duration := ((ozd (en ivl_)) - (ozd (st ivl_))) in
+        match extremum_len with
+        | Some extremum_len =>
+          if (find_max && (duration >? extremum_len)) then
+            let extremum := (Some ivl_) in
+            let extremum_len := (Some duration) in
+            (SCont (extremum, extremum_len))
+          else
+            if ((negb find_max) && (duration <? extremum_len)) then
+              let extremum := (Some ivl_) in
+              let extremum_len := (Some duration) in
+              (SCont (extremum, extremum_len))
+            else
+              (SCont (extremum, (Some extremum_len)))
+        | None =>
+          let extremum := (Some ivl_) in
+          let extremum_len := (Some duration) in
+          (SCont (extremum, extremum_len))
+        end)
+    (fun '(extremum, extremum_len) =>
+      extremum)
+    (extremum, extremum_len) (tl_slice tl win_start win_end).
+
+(* calgebra/metrics.py: max_duration *)
+Definition g_max_agg {TL : Type} (tl_slice : TL -> Z -> Z -> list ivl) (tl : TL) (win_start : Z) (win_end : Z) : option ivl :=
+  (g_extremum_duration tl_slice tl win_start win_end true).
+
+(* calgebra/metrics.py: min_duration *)
+Definition g_min_agg {TL : Type} (tl_slice : TL -> Z -> Z -> list ivl) (tl : TL) (win_start : Z) (win_end : Z) : option ivl :=
+  (g_extremum_duration tl_slice tl win_start win_end false).
+
+(* calgebra/metrics.py: count_intervals *)
+Definition g_count_agg {TL : Type} (tl_slice : TL -> Z -> Z -> list ivl) (tl : TL) (win_start : Z) (win_end : Z) : Z :=
+  (fold_left Z.add (map (fun _ => 1) (tl_slice tl win_start win_end)) 0).
+
+(* calgebra/metrics.py: coverage_ratio *)
+Definition g_cov_agg_tuple {TL : Type} (tl_flatten : TL -> TL) (tl_slice : TL -> Z -> Z -> list ivl) (tl : TL) (win_start : Z) (win_end : Z) : (Z * Z) :=
+  let span := (win_end - win_start) in
+  let total := (g_total_duration tl_flatten tl_slice tl win_start win_end) in
+  (total, span).
+
+(* calgebra/metrics.py: coverage_ratio *)
+Definition g_cov_combine_ratios (tuples : list ((Z * Z))) : (Z * Z) :=
+  let total_num := (fold_left Z.add (map (fun t => (fst t)) tuples) 0) in
+  let total_denom := (fold_left Z.add (map (fun t => (snd t)) tuples) 0) in
+  (if (total_denom >? 0) then (total_num, total_denom) else (0, 1)).
+
+(* calgebra/metrics.py: coverage_ratio *)
+Definition g_cov_agg {TL : Type} (tl_flatten : TL -> TL) (tl_slice : TL -> Z -> Z -> list ivl) (tl : TL) (win_start : Z) (win_end : Z) : (Z * Z) :=
+  let span := (win_end - win_start) in
+  if (span <=? 0) then
+    (0, 1)
+  else
+    let total := (g_total_duration tl_flatten tl_slice tl win_start win_end) in
+    (total, span).
+
+(* calgebra/metrics.py: _extract_group_key *)
+Definition g_extract_group_key {DT : Type} (k_hour : DT -> Z) (k_weekday : DT -> Z) (k_day : DT -> Z) (k_isoweek : DT -> Z) (k_month : DT -> Z) (dt : DT) (group_by : Metrics.groupby) : res Z :=
+  match group_by with
+  | Metrics.GHourOfDay =>
+    (RDone (k_hour dt))
+  | Metrics.GDayOfWeek =>
+    (RDone (k_weekday dt))
+  | Metrics.GDayOfMonth =>
+    (RDone (k_day dt))
+  | Metrics.GWeekOfYear =>
+    (RDone (k_isoweek dt))
+  | Metrics.GMonthOfYear =>
+    (RDone (k_month dt))
+  end.
+
+(* calgebra/metrics.py: _validate_period_group_by *)
+Definition g_validate_period_group_by (period : Metrics.period) (group_by : option Metrics.groupby) : res unit :=
+  match group_by with
+  | Some group_by =>
+    match period with
+    | Metrics.PHour =>
+      if (match group_by with Metrics.GHourOfDay => false | _ => true end) then
+        let valid := tt in
+        (RRaise ValueError)
+      else
+        (RDone tt)
+    | Metrics.PDay =>
+      if (match group_by with Metrics.GDayOfWeek => false | Metrics.GDayOfMonth => false | _ => true end) then
+        let valid := tt in
+        (RRaise ValueError)
+      else
+        (RDone tt)
+    | Metrics.PWeek =>
+      if (match group_by with Metrics.GWeekOfYear => false | _ => true end) then
+        let valid := tt in
+        (RRaise ValueError)
+      else
+        (RDone tt)
+    | Metrics.PMonth =>
+      if (match group_by with Metrics.GMonthOfYear => false | _ => true end) then
+        let valid := tt in
+        (RRaise ValueError)
+      else
+        (RDone tt)
+    | Metrics.PYear =>
+      (RRaise ValueError)
+    | Metrics.PFull =>
+      (RRaise ValueError)
+    end
+  | None =>
+    (RDone tt)
+  end.
+
+(* calgebra/metrics.py: _coerce_bound *)
+Definition g_met_coerce_bound {DT : Type} (p_ymd : Z -> Z -> Z -> DT) (p_timestamp : DT -> Z) (bound_ : MetricsSrc.mbound) : res Z :=
+  match bound_ with
+  | MetricsSrc.MBInt bound__z =>
+    (RDone bound__z)
+  | MetricsSrc.MBDate bound__y bound__m bound__d =>
+    let zone := tt in
+    let dt := (p_ymd bound__y bound__m bound__d) in
+    (RDone (p_timestamp dt))
+  | MetricsSrc.MBAware bound__t =>
+    (RDone bound__t)
+  | MetricsSrc.MBNaive =>
+    (RRaise TypeError)
+  | MetricsSrc.MBOther =>
+    (RRaise TypeError)
+  end.
+
+(* calgebra/metrics.py: _period_windows *)
+Definition g_period_windows {DT : Type} {TD : Type} {LBL : Type} (fuel : nat) (p_fromtimestamp : Z -> DT) (p_ymd : Z -> Z -> Z -> DT) (p_ymdh : Z -> Z -> Z -> Z -> DT) (p_hours : Z -> TD) (p_days : Z -> TD) (p_weeks : Z -> TD) (p_add : DT -> TD -> DT) (p_sub : DT -> TD -> DT) (p_lt : DT -> DT -> bool) (p_timestamp : DT -> Z) (p_weekday : DT -> Z) (p_year : DT -> Z) (p_month : DT -> Z) (p_day : DT -> Z) (p_hour : DT -> Z) (p_date : DT -> LBL) (p_dt_label : DT -> LBL) (start_ts : Z) (end_ts : Z) (period : Metrics.period) : res (list ((LBL * Z * Z))) :=
+  match period with
+  | Metrics.PHour =>
+    res_bind (g_period_windows_dt fuel p_fromtimestamp p_ymd p_ymdh p_hours p_days p_weeks p_add p_sub p_lt p_timestamp p_weekday p_year p_month p_day p_hour start_ts end_ts period) (fun r1_ =>
+    let windows := r1_ in
+    (RDone (map (fun '(dt, ws, we) => ((p_dt_label dt), ws, we)) windows)))
+  | Metrics.PDay =>
+    res_bind (g_period_windows_dt fuel p_fromtimestamp p_ymd p_ymdh p_hours p_days p_weeks p_add p_sub p_lt p_timestamp p_weekday p_year p_month p_day p_hour start_ts end_ts period) (fun r2_ =>
+    let windows := r2_ in
+    (RDone (map (fun '(dt, ws, we) => ((p_date dt), ws, we)) windows)))
+  | Metrics.PWeek =>
+    res_bind (g_period_windows_dt fuel p_fromtimestamp p_ymd p_ymdh p_hours p_days p_weeks p_add p_sub p_lt p_timestamp p_weekday p_year p_month p_day p_hour start_ts end_ts period) (fun r3_ =>
+    let windows := r3_ in
+    (RDone (map (fun '(dt, ws, we) => ((p_date dt), ws, we)) windows)))
+  | Metrics.PMonth =>
+    res_bind (g_period_windows_dt fuel p_fromtimestamp p_ymd p_ymdh p_hours p_days p_weeks p_add p_sub p_lt p_timestamp p_weekday p_year p_month p_day p_hour start_ts end_ts period) (fun r4_ =>
+    let windows := r4_ in
+    (RDone (map (fun '(dt, ws, we) => ((p_date dt), ws, we)) windows)))
+  | Metrics.PYear =>
+    res_bind (g_period_windows_dt fuel p_fromtimestamp p_ymd p_ymdh p_hours p_days p_weeks p_add p_sub p_lt p_timestamp p_weekday p_year p_month p_day p_hour start_ts end_ts period) (fun r5_ =>
+    let windows := r5_ in
+    (RDone (map (fun '(dt, ws, we) => ((p_date dt), ws, we)) windows)))
+  | Metrics.PFull =>
+    res_bind (g_period_windows_dt fuel p_fromtimestamp p_ymd p_ymdh p_hours p_days p_weeks p_add p_sub p_lt p_timestamp p_weekday p_year p_month p_day p_hour start_ts end_ts period) (fun r6_ =>
+    let windows := r6_ in
+    (RDone (map (fun '(dt, ws, we) => ((p_date dt), ws, we)) windows)))
+  end.
+
+(* calgebra/metrics.py: _windowed_agg *)
+Definition g_windowed_agg {TL : Type} {DT : Type} {TD : Type} {LBL : Type} {AV : Type} (fuel : nat) (tl_slice : TL -> Z -> Z -> list ivl) (tl_make : list ivl -> TL) (p_fromtimestamp : Z -> DT) (p_ymd : Z -> Z -> Z -> DT) (p_ymdh : Z -> Z -> Z -> Z -> DT) (p_hours : Z -> TD) (p_days : Z -> TD) (p_weeks : Z -> TD) (p_add : DT -> TD -> DT) (p_sub : DT -> TD -> DT) (p_lt : DT -> DT -> bool) (p_timestamp : DT -> Z) (p_weekday : DT -> Z) (p_year : DT -> Z) (p_month : DT -> Z) (p_day : DT -> Z) (p_hour : DT -> Z) (p_date : DT -> LBL) (p_dt_label : DT -> LBL) (tl : TL) (start : MetricsSrc.mbound) (end_ : MetricsSrc.mbound) (period : Metrics.period) (agg : TL -> Z -> Z -> AV) : res (list ((LBL * AV))) :=
+  res_bind (g_met_coerce_bound p_ymd p_timestamp start) (fun r1_ =>
+  let start_ts := r1_ in
+  res_bind (g_met_coerce_bound p_ymd p_timestamp end_) (fun r2_ =>
+  let end_ts := r2_ in
+  let cached_timeline := (tl_make (tl_slice tl start_ts end_ts)) in
+  res_bind (g_period_windows fuel p_fromtimestamp p_ymd p_ymdh p_hours p_days p_weeks p_add p_sub p_lt p_timestamp p_weekday p_year p_month p_day p_hour p_date p_dt_label start_ts end_ts period) (fun r3_ =>
+  let windows := r3_ in
+  (RDone (map (fun '(label, win_start, win_end) => (label, (agg cached_timeline win_start win_end))) windows))))).
+
+(* calgebra/metrics.py: _grouped_agg *)
+Definition g_grouped_agg {TL : Type} {DT : Type} {TD : Type} {AV : Type} {CV : Type} (fuel : nat) (tl_slice : TL -> Z -> Z -> list ivl) (tl_make : list ivl -> TL) (p_fromtimestamp : Z -> DT) (p_ymd : Z -> Z -> Z -> DT) (p_ymdh : Z -> Z -> Z -> Z -> DT) (p_hours : Z -> TD) (p_days : Z -> TD) (p_weeks : Z -> TD) (p_add : DT -> TD -> DT) (p_sub : DT -> TD -> DT) (p_lt : DT -> DT -> bool) (p_timestamp : DT -> Z) (p_weekday : DT -> Z) (p_year : DT -> Z) (p_month : DT -> Z) (p_day : DT -> Z) (p_hour : DT -> Z) (k_hour : DT -> Z) (k_weekday : DT -> Z) (k_day : DT -> Z) (k_isoweek : DT -> Z) (k_month : DT -> Z) (tl : TL) (start : MetricsSrc.mbound) (end_ : MetricsSrc.mbound) (period : Metrics.period) (group_by : Metrics.groupby) (agg : TL -> Z -> Z -> AV) (combiner : list AV -> CV) : res (list ((Z * CV))) :=
+  res_bind (g_met_coerce_bound p_ymd p_timestamp start) (fun r1_ =>
+  let start_ts := r1_ in
+  res_bind (g_met_coerce_bound p_ymd p_timestamp end_) (fun r2_ =>
+  let end_ts := r2_ in
+  let cached_timeline := (tl_make (tl_slice tl start_ts end_ts)) in
+  res_bind (g_period_windows_dt fuel p_fromtimestamp p_ymd p_ymdh p_hours p_days p_weeks p_add p_sub p_lt p_timestamp p_weekday p_year p_month p_day p_hour start_ts end_ts period) (fun r3_ =>
+  let windows := r3_ in
+  let buckets := (@nil (Z * (list AV))) in
+  pym_iter_for_r
+    (fun buckets '(label_dt, win_start, win_end) =>
+      res_bind (g_extract_group_key k_hour k_weekday k_day k_isoweek k_month label_dt group_by) (fun r4_ =>
+      let key_ := r4_ in
+      let value := (agg cached_timeline win_start win_end) in
+      let buckets := (pym_dd_append Z.eqb key_ value buckets) in
+      (RDone (SCont buckets))))
+    (fun buckets =>
+      (RDone (pym_sort_fst (map (fun '(key_, values) => (key_, (combiner values))) buckets))))
+    buckets windows))).
+
+(* calgebra/metrics.py: total_duration *)
+Definition g_pub_total_duration {TL : Type} {DT : Type} {TD : Type} {LBL : Type} (fuel : nat) (tl_flatten : TL -> TL) (tl_slice : TL -> Z -> Z -> list ivl) (tl_make : list ivl -> TL) (p_fromtimestamp : Z -> DT) (p_ymd : Z -> Z -> Z -> DT) (p_ymdh : Z -> Z -> Z -> Z -> DT) (p_hours : Z -> TD) (p_days : Z -> TD) (p_weeks : Z -> TD) (p_add : DT -> TD -> DT) (p_sub : DT -> TD -> DT) (p_lt : DT -> DT -> bool) (p_timestamp : DT -> Z) (p_weekday : DT -> Z) (p_year : DT -> Z) (p_month : DT -> Z) (p_day : DT -> Z) (p_hour : DT -> Z) (k_hour : DT -> Z) (k_weekday : DT -> Z) (k_day : DT -> Z) (k_isoweek : DT -> Z) (k_month : DT -> Z) (p_date : DT -> LBL) (p_dt_label : DT -> LBL) (timeline : TL) (start : MetricsSrc.mbound) (end_ : MetricsSrc.mbound) (period : Metrics.period) (group_by : option Metrics.groupby) : res ((list (LBL * Z) + list (Z * Z))) :=
+  res_bind (g_validate_period_group_by period group_by) (fun r1_ =>
+  match group_by with
+  | Some group_by =>
+    res_bind (g_grouped_agg fuel tl_slice tl_make p_fromtimestamp p_ymd p_ymdh p_hours p_days p_weeks p_add p_sub p_lt p_timestamp p_weekday p_year p_month p_day p_hour k_hour k_weekday k_day k_isoweek k_month timeline start end_ period group_by (g_total_duration tl_flatten tl_slice) (fun l_ => fold_left Z.add l_ 0)) (fun r2_ =>
+    (RDone (inr r2_)))
+  | None =>
+    res_bind (g_windowed_agg fuel tl_slice tl_make p_fromtimestamp p_ymd p_ymdh p_hours p_days p_weeks p_add p_sub p_lt p_timestamp p_weekday p_year p_month p_day p_hour p_date p_dt_label timeline start end_ period (g_total_duration tl_flatten tl_slice)) (fun r3_ =>
+    (RDone (inl r3_)))
+  end).
+
+(* calgebra/metrics.py: max_duration *)
+Definition g_pub_max_duration {TL : Type} {DT : Type} {TD : Type} {LBL : Type} (fuel : nat) (tl_slice : TL -> Z -> Z -> list ivl) (tl_make : list ivl -> TL) (p_fromtimestamp : Z -> DT) (p_ymd : Z -> Z -> Z -> DT) (p_ymdh : Z -> Z -> Z -> Z -> DT) (p_hours : Z -> TD) (p_days : Z -> TD) (p_weeks : Z -> TD) (p_add : DT -> TD -> DT) (p_sub : DT -> TD -> DT) (p_lt : DT -> DT -> bool) (p_timestamp : DT -> Z) (p_weekday : DT -> Z) (p_year : DT -> Z) (p_month : DT -> Z) (p_day : DT -> Z) (p_hour : DT -> Z) (p_date : DT -> LBL) (p_dt_label : DT -> LBL) (timeline : TL) (start : MetricsSrc.mbound) (end_ : MetricsSrc.mbound) (period : Metrics.period) : res (list ((LBL * option ivl))) :=
+  res_bind (g_windowed_agg fuel tl_slice tl_make p_fromtimestamp p_ymd p_ymdh p_hours p_days p_weeks p_add p_sub p_lt p_timestamp p_weekday p_year p_month p_day p_hour p_date p_dt_label timeline start end_ period (g_max_agg tl_slice)) (fun r1_ =>
+  (RDone r1_)).
+
+(* calgebra/metrics.py: min_duration *)
+Definition g_pub_min_duration {TL : Type} {DT : Type} {TD : Type} {LBL : Type} (fuel : nat) (tl_slice : TL -> Z -> Z -> list ivl) (tl_make : list ivl -> TL) (p_fromtimestamp : Z -> DT) (p_ymd : Z -> Z -> Z -> DT) (p_ymdh : Z -> Z -> Z -> Z -> DT) (p_hours : Z -> TD) (p_days : Z -> TD) (p_weeks : Z -> TD) (p_add : DT -> TD -> DT) (p_sub : DT -> TD -> DT) (p_lt : DT -> DT -> bool) (p_timestamp : DT -> Z) (p_weekday : DT -> Z) (p_year : DT -> Z) (p_month : DT -> Z) (p_day : DT -> Z) (p_hour : DT -> Z) (p_date : DT -> LBL) (p_dt_label : DT -> LBL) (timeline : TL) (start : MetricsSrc.mbound) (end_ : MetricsSrc.mbound) (period : Metrics.period) : res (list ((LBL * option ivl))) :=
+  res_bind (g_windowed_agg fuel tl_slice tl_make p_fromtimestamp p_ymd p_ymdh p_hours p_days p_weeks p_add p_sub p_lt p_timestamp p_weekday p_year p_month p_day p_hour p_date p_dt_label timeline start end_ period (g_min_agg tl_slice)) (fun r1_ =>
+  (RDone r1_)).
+
+(* calgebra/metrics.py: count_intervals *)
+Definition g_pub_count_intervals {TL : Type} {DT : Type} {TD : Type} {LBL : Type} (fuel : nat) (tl_slice : TL -> Z -> Z -> list ivl) (tl_make : list ivl -> TL) (p_fromtimestamp : Z -> DT) (p_ymd : Z -> Z -> Z -> DT) (p_ymdh : Z -> Z -> Z -> Z -> DT) (p_hours : Z -> TD) (p_days : Z -> TD) (p_weeks : Z -> TD) (p_add : DT -> TD -> DT) (p_sub : DT -> TD -> DT) (p_lt : DT -> DT -> bool) (p_timestamp : DT -> Z) (p_weekday : DT -> Z) (p_year : DT -> Z) (p_month : DT -> Z) (p_day : DT -> Z) (p_hour : DT -> Z) (k_hour : DT -> Z) (k_weekday : DT -> Z) (k_day : DT -> Z) (k_isoweek : DT -> Z) (k_month : DT -> Z) (p_date : DT -> LBL) (p_dt_label : DT -> LBL) (timeline : TL) (start : MetricsSrc.mbound) (end_ : MetricsSrc.mbound) (period : Metrics.period) (group_by : option Metrics.groupby) : res ((list (LBL * Z) + list (Z * Z))) :=
+  res_bind (g_validate_period_group_by period group_by) (fun r1_ =>
+  match group_by with
+  | Some group_by =>
+    res_bind (g_grouped_agg fuel tl_slice tl_make p_fromtimestamp p_ymd p_ymdh p_hours p_days p_weeks p_add p_sub p_lt p_timestamp p_weekday p_year p_month p_day p_hour k_hour k_weekday k_day k_isoweek k_month timeline start end_ period group_by (g_count_agg tl_slice) (fun l_ => fold_left Z.add l_ 0)) (fun r2_ =>
+    (RDone (inr r2_)))
+  | None =>
+    res_bind (g_windowed_agg fuel tl_slice tl_make p_fromtimestamp p_ymd p_ymdh p_hours p_days p_weeks p_add p_sub p_lt p_timestamp p_weekday p_year p_month p_day p_hour p_date p_dt_label timeline start end_ period (g_count_agg tl_slice)) (fun r3_ =>
+    (RDone (inl r3_)))
+  end).
+
+(* calgebra/metrics.py: coverage_ratio *)
+Definition g_pub_coverage_ratio {TL : Type} {DT : Type} {TD : Type} {LBL : Type} (fuel : nat) (tl_flatten : TL -> TL) (tl_slice : TL -> Z -> Z -> list ivl) (tl_make : list ivl -> TL) (p_fromtimestamp : Z -> DT) (p_ymd : Z -> Z -> Z -> DT) (p_ymdh : Z -> Z -> Z -> Z -> DT) (p_hours : Z -> TD) (p_days : Z -> TD) (p_weeks : Z -> TD) (p_add : DT -> TD -> DT) (p_sub : DT -> TD -> DT) (p_lt : DT -> DT -> bool) (p_timestamp : DT -> Z) (p_weekday : DT -> Z) (p_year : DT -> Z) (p_month : DT -> Z) (p_day : DT -> Z) (p_hour : DT -> Z) (k_hour : DT -> Z) (k_weekday : DT -> Z) (k_day : DT -> Z) (k_isoweek : DT -> Z) (k_month : DT -> Z) (p_date : DT -> LBL) (p_dt_label : DT -> LBL) (timeline : TL) (start : MetricsSrc.mbound) (end_ : MetricsSrc.mbound) (period : Metrics.period) (group_by : option Metrics.groupby) : res ((list (LBL * (Z * Z)) + list (Z * (Z * Z)))) :=
+  res_bind (g_validate_period_group_by period group_by) (fun r1_ =>
+  match group_by with
+  | Some group_by =>
+    res_bind (g_grouped_agg fuel tl_slice tl_make p_fromtimestamp p_ymd p_ymdh p_hours p_days p_weeks p_add p_sub p_lt p_timestamp p_weekday p_year p_month p_day p_hour k_hour k_weekday k_day k_isoweek k_month timeline start end_ period group_by (g_cov_agg_tuple tl_flatten tl_slice) g_cov_combine_ratios) (fun r2_ =>
+    (RDone (inr r2_)))
+  | None =>
+    res_bind (g_windowed_agg fuel tl_slice tl_make p_fromtimestamp p_ymd p_ymdh p_hours p_days p_weeks p_add p_sub p_lt p_timestamp p_weekday p_year p_month p_day p_hour p_date p_dt_label timeline start end_ period (g_cov_agg tl_flatten tl_slice)) (fun r3_ =>
+    (RDone (inl r3_)))
+  end).
